@@ -143,17 +143,58 @@ impl Core {
                 if used > self.max_preemptions_used {
                     self.max_preemptions_used = used;
                 }
-                let pos = self.stack.len() - 1;
-                if let Some(p) = self.part {
-                    if pos < p.depth {
-                        self.new_prefix_pending = true;
-                    }
-                }
                 return;
             }
             self.stack.pop();
         }
         self.done = true;
+    }
+
+    /// Work partitioning for the parallel search. An execution is identified by its deviations from
+    /// the default schedule (frames with a non-zero choice). The sub-tree below the *second* deviation
+    /// is a work unit owned by hash(first two deviations) mod workers; executions with fewer than two
+    /// deviations are run by every worker (oracle and counters only on the owner) because their frames
+    /// are needed to enumerate the units. Unowned units are skipped without running anything.
+    fn advance_partitioned(&mut self) {
+        loop {
+            self.backtrack();
+            if self.done {
+                return;
+            }
+            let p = match self.part {
+                Some(p) => p,
+                None => {
+                    self.probe = false;
+                    return;
+                }
+            };
+            let nz: Vec<(usize, u32)> = self.stack.iter().enumerate().filter(|(_, f)| f.idx > 0).map(|(i, f)| (i, f.idx)).collect();
+            let owner = |k: &[(usize, u32)]| -> usize {
+                let mut h: u64 = 0xcbf29ce484222325;
+                for (i, a) in k {
+                    h = (h ^ (*i as u64 + 1)).wrapping_mul(0x100000001b3);
+                    h = (h ^ (*a as u64 + 7)).wrapping_mul(0x100000001b3);
+                }
+                ((h >> 7) % p.workers as u64) as usize
+            };
+            match nz.len() {
+                0 | 1 => {
+                    self.probe = owner(&nz) != p.worker;
+                    return;
+                }
+                2 => {
+                    if owner(&nz) != p.worker {
+                        continue; // skip the whole unit: advance the same frame again
+                    }
+                    self.probe = false;
+                    return;
+                }
+                _ => {
+                    self.probe = false;
+                    return;
+                }
+            }
+        }
     }
 
     fn begin_execution(&mut self) -> bool {
@@ -164,17 +205,11 @@ impl Core {
             self.started = true;
         } else {
             if self.started {
-                if self.probe {
-                    if let Some(p) = self.part {
-                        if self.stack.len() > p.depth {
-                            self.stack.truncate(p.depth);
-                        }
-                    }
-                }
-                self.backtrack();
+                self.advance_partitioned();
             } else {
                 self.started = true;
-                self.new_prefix_pending = true;
+                // the all-default execution belongs to worker 0; the others run it to discover the frames
+                self.probe = self.part.map(|p| p.worker != 0).unwrap_or(false);
             }
             if self.done {
                 return false;
@@ -195,14 +230,6 @@ impl Core {
                 if s.load(Ordering::Relaxed) {
                     self.capped = true;
                     return false;
-                }
-            }
-            self.probe = false;
-            if let Some(p) = self.part {
-                if self.new_prefix_pending {
-                    self.new_prefix_pending = false;
-                    self.probe = (self.prefix_ordinal % p.workers as u64) != p.worker as u64;
-                    self.prefix_ordinal += 1;
                 }
             }
             if self.probe {
